@@ -3,6 +3,7 @@ package keeper
 import (
 	"context"
 
+	ordertypes "github.com/SaoNetwork/sao/x/order/types"
 	"github.com/SaoNetwork/sao/x/sao/types"
 	sdk "github.com/cosmos/cosmos-sdk/types"
 	sdkerrors "github.com/cosmos/cosmos-sdk/types/errors"
@@ -59,6 +60,22 @@ func (k msgServer) Terminate(goCtx context.Context, msg *types.MsgTerminate) (*t
 
 		if !isValid {
 			return nil, sdkerrors.Wrap(types.ErrorNoPermission, "No permission to delete the model")
+		}
+	}
+
+	// an order of this model that is still in flight (no shard completed yet) is not listed in
+	// meta.Orders: cancel it with a full refund instead of leaving it behind without a model
+	if inFlight, found := k.order.GetOrder(ctx, meta.OrderId); found && inFlight.DataId == meta.DataId && inFlight.Status != ordertypes.OrderCompleted {
+		for _, shardId := range inFlight.Shards {
+			k.order.RemoveShard(ctx, shardId)
+		}
+		err = k.model.CancelOrder(ctx, inFlight.Id)
+		if err != nil {
+			return nil, err
+		}
+		if _, isFound = k.Keeper.model.GetMetadata(ctx, msg.Proposal.DataId); !isFound {
+			// the model had no committed version: the rollback already removed it
+			return &types.MsgTerminateResponse{}, nil
 		}
 	}
 
